@@ -3,7 +3,7 @@ import os, re
 from .common import LEAN, BUILD, ROOT, Lock, sh
 
 ALLOWED_AXIOMS = {"propext", "Classical.choice", "Quot.sound"}
-FORBIDDEN = re.compile(r"\bsorry\b|\badmit\b|^\s*axiom\s|native_decide|bv_decide|implemented_by|\bunsafe\s|maxHeartbeats\s+0|\bextern\b")
+FORBIDDEN = re.compile(r"\bsorry\b|\badmit\b|^\s*axiom\s|native_decide|bv_decide|implemented_by|\bunsafe\s|maxHeartbeats\s+0|@\[\s*extern")
 PSYMODEL = os.path.join(LEAN, ".lake", "build", "bin", "psymodel")
 
 
